@@ -146,10 +146,14 @@ def main():
     sys.path.insert(0, os.path.join(common.VERIF, "tools"))
     import fingerprint
     drift = fingerprint.drift(common.REPO)
+    drift_explore = bool(drift)
     if drift:
         print("source-drift: %s differ(s) from the transcribed source: exploring longer" % ", ".join(drift))
+        factor = int(os.environ.get("VERIF_DRIFT_FACTOR", "3"))    # tools/mutcamp.py runs hundreds of changed trees: 1
         if tier == "quick":
-            total *= 3
+            total *= factor
+        if factor <= 1:
+            drift_explore = False
     deadline = t0 + total
 
     # 3. corpus, then generated cases -----------------------------------------------------------
@@ -164,7 +168,7 @@ def main():
         return 2
     # thorough tier: keep exploring fresh random streams until half of the budget is used
     rounds = 1
-    while ((tier == "thorough" or drift) and time.time() - t0 < 0.5 * total and
+    while ((tier == "thorough" or drift_explore) and time.time() - t0 < 0.5 * total and
            not any(s["oracle"] or s["diff"] for s in summaries)):
         extra = list(mod.gen_cases(common.mk_rng(seed, pid, tier, "round", rounds), tier))
         more, errors = common.run_cases(modname, extra, want_model=model_ok, deadline=deadline - 0.25 * total)
